@@ -15,8 +15,9 @@ import tempfile
 VERIF = os.path.dirname(os.path.dirname(os.path.dirname(os.path.abspath(__file__))))
 
 
-def run(files: dict[str, str] | str, mode: str, expect: list[str], flags: tuple[str, ...] = (), style: str | None = None,
-        module: str | None = None, what: str = "") -> None:
+def run(files: dict[str, str] | str, mode: str | list[str], expect: list[str], flags: tuple[str, ...] = (),
+        style: str | None = None, module: str | None = None, what: str = "") -> None:
+    """mode: po | sem | insp, or a list of them (the defect shows in each listed mode)."""
     tmp = tempfile.mkdtemp(prefix="verif-C19-repro-", dir=os.environ.get("VERIF_WORK", "/var/tmp"))
     os.environ["VERIF_POOL_ROOT"] = tmp
     sys.path.insert(0, VERIF)
@@ -36,33 +37,38 @@ def run(files: dict[str, str] | str, mode: str, expect: list[str], flags: tuple[
             m = f[:-3].replace("/", ".")
             modules.append(m[: -len(".__init__")] if m.endswith(".__init__") else m)
         modules.sort(key=lambda m: m.count("."))
-        style = style or ("modules" if mode == "insp" else "files")
-        res = c19_run.run_bundle(files, modules, mode, list(flags), style)
-        ctx = common.Ctx("C19", "quick")
-        ctx._kf = {}
-        ev = c19.Evaluator(ctx)
-        task = {"args": {"files": files, "modules": modules, "mode": mode, "flags": list(flags), "style": style},
-                "_id": "repro", "_stream": "repro"}
-        ev.evaluate(task, res, only=module)
-        hits = [v for v in ctx.violations if v["key"] in expect]
-        print(f"# {what}" if what else "", f"\n# stubgen mode={mode} flags={list(flags)} style={style}; mypy from {repo}")
-        if ctx.inconclusive and not ctx.violations and not ctx.evaluations:
-            print("INCONCLUSIVE:", ctx.inconclusive, res.get("pre"))
-            rc = 2
-        elif hits:
-            w = hits[0]["witness"]
-            print("---- source ----\n" + w.get("source", ""))
-            print("---- stub ----\n" + str(w.get("stub")))
-            for h in hits:
-                ww = h["witness"]
-                print("---- DEFECT PRESENT:", h["key"])
-                for k in ("mypy", "stub_line", "stubtest", "object", "detail", "traceback", "error", "line"):
-                    if ww.get(k):
-                        print(f"{k}: {ww[k]}")
-            rc = 1
-        else:
-            print("defect absent; keys observed:", sorted({v['key'] for v in ctx.violations}))
-            rc = 0
+        print(f"# {what.strip()}" if what else "")
+        present = False
+        evaluated = False
+        for md in ([mode] if isinstance(mode, str) else mode):
+            st = style or ("modules" if md == "insp" else "files")
+            res = c19_run.run_bundle(files, modules, md, list(flags), st)
+            ctx = common.Ctx("C19", "quick")
+            ctx._kf = {}
+            ev = c19.Evaluator(ctx)
+            task = {"args": {"files": files, "modules": modules, "mode": md, "flags": list(flags), "style": st},
+                    "_id": "repro", "_stream": "repro"}
+            ev.evaluate(task, res, only=module)
+            hits = [v for v in ctx.violations if v["key"] in expect]
+            print(f"\n# stubgen mode={md} flags={list(flags)} style={st}; mypy from {repo}")
+            if not ctx.evaluations:
+                print("INCONCLUSIVE:", ctx.inconclusive, res.get("pre"))
+                continue
+            evaluated = True
+            if hits:
+                present = True
+                w = hits[0]["witness"]
+                print("---- source (" + str(w.get("module")) + ") ----\n" + w.get("source", "").strip())
+                print("---- stub ----\n" + str(w.get("stub")).strip())
+                for h in hits:
+                    ww = h["witness"]
+                    print("---- DEFECT PRESENT:", h["key"])
+                    for k in ("mypy", "stub_line", "stubtest", "object", "detail", "traceback", "error", "line"):
+                        if ww.get(k):
+                            print(f"{k}: {str(ww[k]).strip()}")
+            else:
+                print("expected keys not observed; keys observed:", sorted({v["key"] for v in ctx.violations}))
+        rc = 1 if present else (0 if evaluated else 2)
     finally:
         shutil.rmtree(tmp, ignore_errors=True)
     sys.exit(rc)
